@@ -94,6 +94,7 @@ class _Normalise(ast.NodeTransformer):
     the rules do not depend on incidental choices of the source:
       N1  <constant> op x        ->  x flipped-op <constant>        (single comparisons)
       N2  if not c: A else: B    ->  if c: B else: A                 (else present, not an elif)
+      N4  x = E; return x        ->  return E                        (consecutive statements)
       N3  not not c -> c   (`not a == b` is NOT rewritten to `a != b`: user-defined __ne__ may differ)
     Line numbers of the statements are kept."""
     FLIP = {ast.Eq: ast.Eq, ast.NotEq: ast.NotEq, ast.Lt: ast.Gt, ast.Gt: ast.Lt, ast.LtE: ast.GtE, ast.GtE: ast.LtE}
@@ -112,11 +113,118 @@ class _Normalise(ast.NodeTransformer):
                 return o.operand
         return n
 
+    def _fold_returns(self, stmts):
+        # N4  x = E; return x   ->   return E     (x a plain local name)
+        out = []
+        i = 0
+        while i < len(stmts):
+            a = stmts[i]
+            b = stmts[i + 1] if i + 1 < len(stmts) else None
+            if isinstance(a, ast.Assign) and len(a.targets) == 1 and isinstance(a.targets[0], ast.Name) and isinstance(b, ast.Return) \
+                    and isinstance(b.value, ast.Name) and b.value.id == a.targets[0].id:
+                out.append(ast.copy_location(ast.Return(a.value), a))
+                i += 2
+                continue
+            out.append(a)
+            i += 1
+        return out
+
+    def generic_visit(self, node):
+        node = super().generic_visit(node)
+        for fld in ("body", "orelse", "finalbody"):
+            v = getattr(node, fld, None)
+            if isinstance(v, list) and v and isinstance(v[0], ast.stmt):
+                setattr(node, fld, self._fold_returns(v))
+        return node
+
     def visit_If(self, n):
         self.generic_visit(n)
         if n.orelse and isinstance(n.test, ast.UnaryOp) and isinstance(n.test.op, ast.Not) and not (len(n.orelse) == 1 and isinstance(n.orelse[0], ast.If)):
             return ast.copy_location(ast.If(n.test.operand, n.orelse, n.body), n)
         return n
+
+
+class _InlineTemps(object):
+    """N5  t = E; <simple statement using t once>   ->   <statement with E in place of t>
+    when the local t is assigned exactly once and read exactly once in the whole function and
+    the read is in the statement that immediately follows (a simple statement, or the test of
+    an `if`).  Undoes extract-variable refactorings so that expression-shaped rules see one
+    canonical form; the analysed semantics are unchanged."""
+    SIMPLE = (ast.Assign, ast.AugAssign, ast.Return, ast.Expr, ast.Raise, ast.Assert)
+
+    def run(self, tree):
+        for fn in ast.walk(tree):
+            if isinstance(fn, (ast.FunctionDef, ast.AsyncFunctionDef)):
+                changed = True
+                rounds = 0
+                while changed and rounds < 20:
+                    rounds += 1
+                    changed = self._function(fn)
+
+    def _function(self, fn):
+        stores, loads = {}, {}
+        a = fn.args
+        params = {x.arg for x in a.posonlyargs + a.args + a.kwonlyargs} | ({a.vararg.arg} if a.vararg else set()) | ({a.kwarg.arg} if a.kwarg else set())
+        banned = set(params)
+        for n in ast.walk(fn):
+            if isinstance(n, ast.Name):
+                d = stores if isinstance(n.ctx, (ast.Store, ast.Del)) else loads
+                d[n.id] = d.get(n.id, 0) + 1
+            elif isinstance(n, (ast.Global, ast.Nonlocal)):
+                banned |= set(n.names)
+            elif isinstance(n, ast.ExceptHandler) and n.name:
+                banned.add(n.name)
+            elif isinstance(n, (ast.FunctionDef, ast.AsyncFunctionDef, ast.ClassDef)) and n is not fn:
+                banned.add(n.name)
+        cands = {k for k, v in stores.items() if v == 1 and loads.get(k, 0) == 1 and k not in banned}
+        if not cands:
+            return False
+        return self._blocks(fn, cands)
+
+    def _blocks(self, node, cands):
+        changed = False
+        for fld in ("body", "orelse", "finalbody"):
+            v = getattr(node, fld, None)
+            if isinstance(v, list) and v and isinstance(v[0], ast.stmt):
+                i = 0
+                while i + 1 < len(v):
+                    s1, s2 = v[i], v[i + 1]
+                    if isinstance(s1, ast.Assign) and len(s1.targets) == 1 and isinstance(s1.targets[0], ast.Name) and s1.targets[0].id in cands \
+                            and not isinstance(s1.value, (ast.Yield, ast.YieldFrom, ast.Await, ast.Lambda)):
+                        t = s1.targets[0].id
+                        host = s2 if isinstance(s2, self.SIMPLE) else s2.test if isinstance(s2, ast.If) else None
+                        if host is not None and self._uses(host, t) == 1 and not self._in_scope(host, t):
+                            self._subst(host, t, s1.value)
+                            del v[i]
+                            changed = True
+                            continue
+                    i += 1
+                for st in v:
+                    if not isinstance(st, (ast.FunctionDef, ast.AsyncFunctionDef, ast.ClassDef)):
+                        changed |= self._blocks(st, cands)
+        for h in getattr(node, "handlers", []) or []:
+            changed |= self._blocks(h, cands)
+        return changed
+
+    def _uses(self, node, t):
+        return sum(1 for n in ast.walk(node) if isinstance(n, ast.Name) and n.id == t and isinstance(n.ctx, ast.Load))
+
+    def _in_scope(self, node, t):
+        # the read must not sit inside a lambda / comprehension (evaluated later or repeatedly)
+        for n in ast.walk(node):
+            if isinstance(n, (ast.Lambda, ast.ListComp, ast.SetComp, ast.DictComp, ast.GeneratorExp)) and self._uses(n, t):
+                return True
+        return False
+
+    def _subst(self, node, t, value):
+        for parent in ast.walk(node):
+            for fld, val in ast.iter_fields(parent):
+                if isinstance(val, ast.Name) and val.id == t and isinstance(val.ctx, ast.Load):
+                    setattr(parent, fld, value)
+                elif isinstance(val, list):
+                    for j, x in enumerate(val):
+                        if isinstance(x, ast.Name) and x.id == t and isinstance(x.ctx, ast.Load):
+                            val[j] = value
 
 
 class _ConfigResolver(ast.NodeTransformer):
@@ -270,6 +378,9 @@ class Program(object):
                     new_body.append(r)
             tree.body = new_body
             tree = _Normalise().visit(tree)
+            if os.environ.get("VERIF_NO_INLINE") != "1":
+                _InlineTemps().run(tree)
+                tree = _Normalise().visit(tree)
             for n in ast.walk(tree):
                 if hasattr(n, "body") and isinstance(n.body, list) and not n.body:
                     n.body.append(ast.Pass(lineno=getattr(n, "lineno", 0), col_offset=0))
